@@ -388,6 +388,8 @@ func (s *sim) newTx(o txOpts) *txDef {
 		d.outs = append(d.outs, outDef{kind: 'n', pad: 20}, outDef{kind: 'n', pad: 10})
 	case "big": // large enough to trip the orphan size limit and, with 50k, the free-area rule
 		d.outs = append(d.outs, outDef{kind: 'n', pad: int(s.r.Pick(300, 1000, 5000, 48900, 49100))})
+	case "big49k": // the free-area rule: vsize exactly at / one below / one above DefaultBlockPrioritySize-1000
+		d.outs = append(d.outs, outDef{kind: 'n', pad: 48000})
 	case "noouts":
 		d.outs = nil
 	case "tiny": // below the 65-byte rule: one bare input spending OP_TRUE with an empty script is needed; approximate with one bare output
@@ -411,6 +413,13 @@ func (s *sim) newTx(o txOpts) *txDef {
 	s.u.defs[d.id] = d
 	s.u.build(d)
 	vsize := mempool.GetTxVirtualSize(d.tx)
+	if o.special == "big49k" {
+		target := 49000 + s.r.Pick(-1, 0, 0, 1)
+		d.outs[len(d.outs)-1].pad += int(target - vsize)
+		s.u.build(d)
+		vsize = mempool.GetTxVirtualSize(d.tx)
+		o.feeRel = []string{"zero", "min-1", "min"}[s.r.Intn(3)]
+	}
 	fee := o.fee
 	var cfee, crate int64
 	seenC := map[int]bool{}
@@ -582,7 +591,7 @@ func (s *sim) randomOpts() txOpts {
 	}
 	if r.Chance(22, 100) {
 		sp := []string{"ghost", "badidx", "dupin", "badscript", "coinbase", "ver3", "ver2", "nonstdout", "nulldata",
-			"nulldata2", "big", "noouts", "lockh", "lockt", "lockh", "lockt", "overspend", "dust", "tiny"}
+			"nulldata2", "big", "big49k", "noouts", "lockh", "lockt", "lockh", "lockt", "overspend", "dust", "tiny"}
 		o.special = sp[r.Intn(len(sp))]
 	}
 	return o
